@@ -125,7 +125,22 @@ func c07Scenario(c c07Case) *vsched.Scenario {
 		},
 	}
 	sc.Check = func(x *vsched.Exec) (out [][2]string) {
+		// Known finding (see known_findings.json): github.com/mdlayher/schedgroup's
+		// Schedule signals its monitor goroutine with a non-blocking send on an
+		// unbuffered channel; if the monitor is between trigger() and its select the
+		// signal is dropped and the new task sleeps until the next wake-up. Late or
+		// missing answers in an execution where that drop happened carry their own
+		// signature, so that any other loss is still reported.
+		dropped := false
+		for l, n := range x.DefaultTaken {
+			if n > 0 && strings.HasPrefix(l, "schedgroup/group.go:Schedule:") {
+				dropped = true
+			}
+		}
 		bad := func(sig, format string, args ...any) {
+			if dropped && (sig == "C07:solicitation-lost" || sig == "C07:response-delay" || sig == "C07:unspecified-unserved") {
+				sig += ":schedgroup-add-signal-dropped"
+			}
 			out = append(out, [2]string{sig, fmt.Sprintf(format, args...)})
 		}
 		if x.Failure != "" {
